@@ -4,7 +4,8 @@
 From Coq Require Import ZArith List Bool.
 Import ListNotations.
 Require Import PV.Model.GraphAlg PV.Model.Split PV.Proofs.GraphSpec PV.Proofs.GraphBounded PV.Proofs.SplitBounded.
-Require Import PV.Proofs.ParMisProofs PV.Proofs.ParMisTerm PV.Proofs.RsIndep.
+Require Import PV.Proofs.ParMisProofs PV.Proofs.ParMisTerm PV.Proofs.RsIndep PV.Proofs.RsFinal.
+From Coq Require Import Lia.
 
 (* first-pass Ruge-Stuben: 0/1 flags, a C point whenever there is an edge, and on symmetric
    patterns an independent and dominating C set *)
@@ -65,6 +66,38 @@ Theorem C13_pmis_terminates : forall (N : nat) (Gp Gj : list Z),
   exists r, mis_parallel (Z.of_nat N) Gp Gj WtZ (-1)%Z 1%Z 0%Z x0 weights (-1)%Z = Some r.
 Proof. intros. eapply (mis_parallel_terminates N Gp Gj H H0 (-1)%Z 1%Z 0%Z); eauto; discriminate. Qed.
 Print Assumptions C13_pmis_terminates.
+
+(* first-pass Ruge-Stuben, UNBOUNDED: on a symmetric strength pattern (S and its transpose T list the same
+   neighbours) with a nonnegative influence vector the coarse set is DOMINATING -- every fine point is either
+   without off-diagonal strong connection or strongly connected to a coarse point -- for any number of vertices.
+   The proof carries the full invariant of the lambda buckets (sorted, gap-free partition of the unvisited
+   positions; Proofs/RsBuckets.v, RsInit.v): the loop visits every vertex or stops when the largest lambda among the
+   unvisited ones is <= 0, and an undecided vertex always has lambda >= 1, so no vertex is left undecided. *)
+Theorem C13_rs_first_pass_dominating : forall (N : nat) (Sp Sj Tp Tj infl : list Z),
+  (forall i, (0 <= i < Z.of_nat N)%Z -> forall j, In j (nbrs Tp Tj i) -> (0 <= j < Z.of_nat N)%Z) ->
+  (forall i, (0 <= i < Z.of_nat N)%Z -> forall j, In j (row Sp Sj i) -> (0 <= j < Z.of_nat N)%Z) ->
+  (forall i j, (0 <= i < Z.of_nat N)%Z -> In j (nbrs Tp Tj i) -> In i (nbrs Tp Tj j)) ->
+  (forall i j, (0 <= i < Z.of_nat N)%Z -> In j (row Sp Sj i) -> In j (nbrs Tp Tj i)) ->
+  (forall i, (0 <= i < Z.of_nat N)%Z -> (0 <= get infl i)%Z) ->
+  (forall i, (0 <= i < Z.of_nat N)%Z -> (get Tp i <= get Tp (i + 1))%Z) ->
+  let r := rs_cf_splitting (Z.of_nat N) Sp Sj Tp Tj infl in
+  forall k, (0 <= k < Z.of_nat N)%Z -> get r k = 0%Z ->
+    (forall i, In i (nbrs Tp Tj k) -> i = k) \/ exists i, In i (nbrs Tp Tj k) /\ i <> k /\ get r i = 1%Z.
+Proof. exact rs_first_pass_dominating. Qed.
+Print Assumptions C13_rs_first_pass_dominating.
+(* the hypotheses are satisfiable and the conclusion is not vacuous: the path 0 - 1 - 2 - 3 (no diagonal) *)
+Example C13_rs_dominating_example :
+  let Sp := [0; 1; 3; 5; 6]%Z in let Sj := [1; 0; 2; 1; 3; 2]%Z in let infl := [0; 0; 0; 0]%Z in
+  rs_cf_splitting 4 Sp Sj Sp Sj infl = [1; 0; 1; 0]%Z /\
+  (forall i, (0 <= i < 4)%Z -> forall j, In j (nbrs Sp Sj i) -> (0 <= j < 4)%Z) /\
+  (forall i j, (0 <= i < 4)%Z -> In j (nbrs Sp Sj i) -> In i (nbrs Sp Sj j)).
+Proof.
+  cbv zeta. split; [vm_compute; reflexivity|]. split.
+  - intros i Hi j Hj. assert (C : (i = 0 \/ i = 1 \/ i = 2 \/ i = 3)%Z) by lia.
+    destruct C as [-> | [-> | [-> | ->]]]; vm_compute in Hj; intuition lia.
+  - intros i j Hi Hj. assert (C : (i = 0 \/ i = 1 \/ i = 2 \/ i = 3)%Z) by lia.
+    destruct C as [-> | [-> | [-> | ->]]]; vm_compute in Hj; intuition (subst; vm_compute; auto).
+Qed.
 
 Example C13_enumeration_size : length all_patterns = 133%nat.
 Proof. exact all_patterns_count. Qed.
